@@ -17,7 +17,7 @@ STATEMENT = ('after any history of public table operations every column has one 
              'assignment is rejected with ValueError')
 LEAN_FILES = ['Basic', 'Cmp', 'Sort', 'TableBasic', 'Table', 'TableSpec', 'TableDriver', 'TableLemmas', 'TableRect', 'TableRows',
               'TableCons', 'TableNodup', 'SliceLemmas', 'TableAbs', 'TableAbs2', 'TableAbsHeap', 'TableCall', 'TableSpecPlain', 'TableAlias',
-              'TableMaskPlain', 'TableRagged', 'C01']
+              'TableMaskPlain', 'TableRagged', 'TableAliasSim', 'C01']
 RULE = ('distinct protocol lines of generated histories on which the implementation returned a value (not an exception); '
         'every line also compares the dump of all live tables')
 TRUSTED = ['correspondence harness (pv.engine, pv.proto) and generators / law checks of pv.props.c01',
@@ -26,7 +26,7 @@ ASSUMPTIONS = ['CPython dict semantics (insertion order, in-place overwrite), li
                'column ORDER of results is not modelled (dict_concat builds it from a python set); tables are compared as dicts',
                'callables are drawn from a fixed menu implemented on both sides (identity / is-None / coalesce / constant)',
                'cells are scalars (None, bool, int, quarter floats, NaN, str, datetime); container-valued cells are outside the model',
-               'aliasing is observed through the dump of all live handles after every operation, not through object identity (except `d + None is d`)']
+               'aliasing: `d + None` / `concat([d])` are checked to return d itself (object identity) and can be bound to a handle (`alias`); the model is the reference heap of TableAlias.lean; every reply dumps what ALL handles read']
 EXTRA = {}
 
 D = datetime.datetime
@@ -238,6 +238,14 @@ def apply_op(state, sx):
         if res is state[k]:
             return ('alias', k)
         raise AssertionError('d + None did not return d itself')
+    if op == 'alias':
+        # dst = d + None / dictable.concat([d]): the SAME object; from now on an assignment through one handle shows in both
+        src = state[_h(args[1])]
+        res = src + None if _h(args[0]) % 2 == 0 else dictable.concat([src])
+        if res is not src:
+            raise AssertionError('d + None / concat([d]) did not return d itself')
+        put(args[0], res)
+        return ('alias', _h(args[1]))
     if op == 'copy':
         return put(args[0], state[_h(args[1])].copy())
     if op == 'inc0':
@@ -249,7 +257,7 @@ def dump(state):
     return '(L' + ''.join(' ' + enc(dict(t)) for t in state) + ')'
 
 
-DST_OPS = ('new', 'slice', 'mask', 'take', 'proj', 'call', 'relabel', 'do', 'concat', 'add', 'addrec', 'copy', 'inc0')
+DST_OPS = ('new', 'slice', 'mask', 'take', 'proj', 'call', 'relabel', 'do', 'concat', 'add', 'addrec', 'copy', 'inc0', 'alias')
 
 
 def handles_ok(state, sx):
@@ -790,6 +798,15 @@ def g_op(S):
             S.emit('(tbl addnone h%d %s)', h, rng.choice(['N', 'I:0', 'F:0']))
             S.tags.add('add-none')
         return
+    if rng.random() < 0.45:
+        # bind the operand ITSELF to another handle: the shadow shares the entry, so later assignments show in both
+        S.emit('(tbl alias h%d h%d)', dst, h)
+        if dst == len(S.t):
+            S.t.append(S.t[h])
+        else:
+            S.t[dst] = S.t[h]
+        S.tags.add('alias-bound')
+        return
     S.emit('(tbl %s h%d h%d)', rng.choice(['copy', 'inc0']), dst, h)
     S.bind(dst, cols, n)
 
@@ -920,8 +937,8 @@ def laws(rng, tier, ctx):
             # operands are never altered by operations that return a new table / a value
             mut = int(sx[2][1:]) if op in MUTATORS else None
             for k, (t, snap) in enumerate(zip(objs, before)):
-                if k == mut:
-                    continue
+                if k == mut or (mut is not None and t is objs[mut]):
+                    continue      # the assigned table, under each of the handles bound to that very object
                 if not _same_table(_snap(t), snap):
                     bad = 'operation %s altered the table h%d it did not assign to' % (op, k)
             if bad:
